@@ -84,12 +84,12 @@ Inductive c08case :=
 Definition c08_model (c : c08case) : obs :=
   match c with
   | CRpq rc caps pp cp es => rpq_model rc caps pp cp es
-  | CWg items => wg_rows (g0 false) items
+  | CWg items => wg_rows (g0 true) items
   | CWgMT gap =>
-      let s1 := grun [GE (EAdd 1); GW] (g0 false) in        (* count = 1, the waiter has checked *)
+      (* count = 1; the waiter has created its future, checked, and stands at the schedule point *)
+      let s1 := grun [GE (EAdd 1); GW; GW; GW] (g0 true) in
       let s := if gap then gsettle 8 (grun [GE EDec; GE ENotify] s1)
-               else grun [GE EDec; GE ENotify] (gsettle 8 s1) in
-      let s := gsettle 8 s in
+               else gsettle 8 (grun [GE EDec; GE ENotify] (gsettle 8 s1)) in
       [[b2n (negb (match g_pc s with GDone => true | _ => false end)); N.of_nat (g_count s)]]
   end.
 
